@@ -94,6 +94,11 @@ type ChunkReader struct {
 	rkey    cbor.RawBytes
 	key     string
 	buffer  []byte
+
+	// inMessage is true while the message the caller is filling already holds
+	// a chunk: set when a KV is returned, cleared when ErrSizeTooSmall tells
+	// the caller to start a new message.
+	inMessage bool
 }
 
 // ReadChunk reads ServiceInfo chunked at some MTU. The values contain any
@@ -125,6 +130,12 @@ func (r *ChunkReader) ReadChunk(size uint16) (*KV, error) {
 			// that the writer wants to force a message break, so no combining
 			// data chunks up to the MTU
 			if errors.Is(err, io.EOF) {
+				// Nothing has been put into the current message yet, so the
+				// next KV starts a new message anyway
+				if !r.inMessage {
+					return r.ReadChunk(size)
+				}
+				r.inMessage = false
 				err = ErrSizeTooSmall
 			}
 
@@ -157,6 +168,7 @@ func (r *ChunkReader) ReadChunk(size uint16) (*KV, error) {
 		maxOverhead++
 	}
 	if int(size)-maxOverhead <= 0 {
+		r.inMessage = false
 		return nil, ErrSizeTooSmall
 	}
 
@@ -182,6 +194,7 @@ func (r *ChunkReader) ReadChunk(size uint16) (*KV, error) {
 	val := make([]byte, n)
 	copy(val, r.buffer[:n])
 
+	r.inMessage = true
 	return &KV{
 		Key: r.key,
 		Val: val,
@@ -297,8 +310,9 @@ func (w *UnchunkWriter) NextServiceInfo(moduleName, messageName string) error {
 }
 
 // ForceNewMessage causes the next (*ChunkReader).ReadChunk to return
-// ErrSizeTooSmall. This in turn forces the next KV to be put into a new
-// ServiceInfo message.
+// ErrSizeTooSmall, unless no KV has been read since the last time it did (or
+// at all). This in turn forces the next KV to be put into a new ServiceInfo
+// message.
 //
 // This method facilitates implementing custom chunking conventions, provided
 // that the MTU used for automatic chunking at the client level is known to the
